@@ -1,5 +1,5 @@
 """R-RESET, R-SRCCONST (C05)."""
-from .prog import AnalysisBroken, key, strip, walk, const_value
+from .prog import AnalysisBroken, key, strip, walk, const_value, resolve_key
 from .rules_cg import conversion_roots
 
 DSTRING_MUTATORS = {"d_string_append", "d_string_append_c", "d_string_append_c_array", "d_string_append_printf",
@@ -22,23 +22,42 @@ def r_reset(P, chk):
         raise AnalysisBroken("struct mmd_engine is gone")
     reset = P.func("mmd_engine_reset", "mmd.c")
     n = 0
-    keys_cleared = set()
-    for x in reset.walk():
-        if x["k"] == "BinaryOperator" and x["op"] == "=":
-            l = key(x["c"][0])
-            if l.endswith("->size") and const_value(x["c"][1]) == 0:
-                keys_cleared.add(l[:-len("->size")])
-            elif const_value(x["c"][1]) == 0 or key(x["c"][1]) in ("0", "NULL"):
-                keys_cleared.add(l)
-        elif x["k"] == "CallExpr" and x.get("callee") == "stack_pop":
-            # pop-until-empty loop
-            for a in reset.ancestors(x):
-                if a["k"] == "WhileStmt" and key(a["c"][0]).startswith(key(x["c"][1])):
-                    keys_cleared.add(key(x["c"][1]))
-    # uthash iteration with delete: the hash head is reassigned inside HASH_DEL's expansion
-    for x in reset.walk():
-        if x["k"] == "BinaryOperator" and x["op"] == "=" and x.get("m", "").startswith("HASH_DEL"):
-            keys_cleared.add(key(x["c"][0]))
+
+    def cleared_in(fn):
+        """Access paths (resolved through local aliases) that fn empties: `X->size = 0`, pop-until-empty loops,
+        NULL/0 stores, uthash delete iteration."""
+        out = set()
+        for x in fn.walk():
+            if x["k"] == "BinaryOperator" and x["op"] == "=":
+                l = resolve_key(fn, x["c"][0])
+                if l.endswith("->size") and const_value(x["c"][1]) == 0:
+                    out.add(l[:-len("->size")])
+                elif const_value(x["c"][1]) == 0:
+                    out.add(l)
+                if x.get("m", "").startswith("HASH_DEL"):
+                    out.add(l)
+            elif x["k"] == "CallExpr" and x.get("callee") == "stack_pop":
+                tgt = resolve_key(fn, x["c"][1])
+                for a in fn.ancestors(x):
+                    cond = None
+                    if a["k"] == "WhileStmt":
+                        cond = a["c"][0]
+                    elif a["k"] == "ForStmt":
+                        cond = a["c"][1]
+                    if cond is not None and resolve_key(fn, cond).replace("(", "").startswith(tgt + "->size"):
+                        out.add(tgt)
+        return out
+
+    keys_cleared = cleared_in(reset)
+    # helpers that empty the container they are handed
+    for c in reset.calls():
+        h = P.resolve(reset, c.get("callee")) if c.get("callee") else None
+        if h is None or not P.first_party(h) or h is reset:
+            continue
+        hc = cleared_in(h)
+        for i, q in enumerate(h.params):
+            if q[0] in hc and i < len(c["c"]) - 1:
+                keys_cleared.add(resolve_key(reset, c["c"][1 + i]))
     pname = reset.params[0][0]
     for fld in rec["fields"]:
         name, ty = fld[0], fld[1]
